@@ -147,7 +147,8 @@ pub fn run_batch(sc: &dyn Scenario, seed: u64, runs: u64, tier: Tier) -> BatchRe
     let threads = n_threads().max(1);
     let next = AtomicU64::new(0);
     let agg = Mutex::new((Stats::default(), Vec::<(u64, Failure)>::new(), HashSet::<u64>::new()));
-    let chunk: u64 = 64;
+    // small batches (the giant-stream scenarios have three runs) are spread over the threads
+    let chunk: u64 = if runs < 64 * threads as u64 { 1 } else { 64 };
     std::thread::scope(|s| {
         for _ in 0..threads {
             std::thread::Builder::new()
